@@ -144,6 +144,14 @@ def multi_file_cases(ctx):
                                                                                                                    "z": {"$ref": "z.json#/$defs/Item"}}},
                                                      "x.json": {"description": "x", "$defs": {"Item": it2}}, "y.json": {"description": "y", "$defs": {"Item": it1}},
                                                      "z.json": {"description": "z", "$defs": {"Item": it1}}}, "s.json", []))
+    # a whole-file reference to a document whose root is a pure composition of its own definitions
+    person = {"$id": "http://x/person", "title": "Person", "allOf": [{"$ref": "#/$defs/Named"}, {"$ref": "#/$defs/Aged"}],
+              "$defs": {"Named": {"type": "object", "properties": {"name": {"type": "string", "minLength": 2}}, "required": ["name"]},
+                        "Aged": {"type": "object", "properties": {"age": {"type": "integer", "minimum": 0}}, "required": ["age"]}}}
+    out.append(("whole-file-composite", {"s.json": {"$id": "http://x/main", "type": "object", "properties": {"owner": {"$ref": "person.json"}, "count": {"type": "integer"}}, "required": ["owner"]},
+                                         "person.json": person}, "s.json", []))
+    out.append(("whole-file-composite-subdir", {"s.json": {"$id": "http://x/main", "type": "object", "properties": {"owners": {"type": "array", "items": {"$ref": "people/person.json"}, "minItems": 1}}},
+                                                "people/person.json": person}, "s.json", []))
     out.append(("parent-dir", {"s.json": top, "sub/mid.json": mid, "leaf.json": leaf}, "s.json", []))
     return out
 
